@@ -152,3 +152,24 @@ Proof.
     + now apply e2e_frames.
     + now apply e2e_sums.
 Qed.
+
+(* ------------------------------------------------------------------ every checksumFlag value (fix 0531868)
+   The table bytes depend on the flag through its truth value only - descriptor byte included - so the table written
+   under ANY non-zero flag (2, 4, 256, ...) is the table written under 1, and the loader reads it back. *)
+Lemma seek_table_bytes_flag cf log : seek_table_bytes cf log = seek_table_bytes (cf_of (flag_set cf)) log.
+Proof.
+  unfold seek_table_bytes, table_size, sfd_of.
+  assert (E : flag_set (cf_of (flag_set cf)) = flag_set cf) by (destruct (flag_set cf); reflexivity).
+  rewrite E. reflexivity.
+Qed.
+
+Lemma seektable_roundtrip_any_flag cf log pre buf0 :
+  lenN buf0 = sk_BUFF -> lenN log <= MAXFRAMES -> Forall logent_ok log ->
+  load_seek_table sk_BUFF (pre ++ seek_table_bytes cf log) buf0 = Ok (table_of (flag_set cf) log).
+Proof.
+  intros. rewrite seek_table_bytes_flag. apply seektable_roundtrip_BUFF; assumption.
+Qed.
+
+(* witness for the code before the fix: descriptor (BYTE)(2 << 7) = 0 over 12-byte entries *)
+Example flag2_before_fix_descriptor_says_no_checksums : (2 * 128) mod 256 = 0 /\ flag_set 2 = true /\ sfd_of 2 = 128.
+Proof. repeat split. Qed.
